@@ -30,6 +30,8 @@ func phiWeb(v ssa.Value) *phiWebT {
 		}
 		seen[x] = true
 		switch y := x.(type) {
+		case *ssa.ChangeType:
+			visit(y.X)
 		case *ssa.Phi:
 			w.Phis[y] = true
 			for _, e := range y.Edges {
